@@ -525,10 +525,13 @@ class Interp(BuiltinsMixin, StmtMixin, DictMixin):
         return lst
 
     def ev_Dict(self, node, st, fr):
-        if node.keys:
-            raise Unsupported("non-empty dict literal")
         obj = self.alloc(st, "dict", None, "dict")
         st.write("$card", obj.e, z3.IntVal(0), "int")
+        for k, v in zip(node.keys, node.values):
+            if k is None:
+                raise Unsupported("dict unpacking in a literal")
+            self.dict_setitem(obj, self.ev(k, st, fr), self.ev(v, st, fr),
+                              st, fr)
         return obj
 
     def ev_ListComp(self, node, st, fr):
@@ -580,6 +583,9 @@ class Interp(BuiltinsMixin, StmtMixin, DictMixin):
                     break
                 if isinstance(x, VStr):
                     parts.append(x.e)
+                    continue
+                if isinstance(x, VInt):
+                    parts.append(self.bi_str([x], {}, st, fr).e)
                     continue
             parts = None
             break
@@ -647,6 +653,11 @@ class Interp(BuiltinsMixin, StmtMixin, DictMixin):
                   ast.Mult: operator.mul}.get(type(op))
             if fn:
                 return self.lift(fn(a.obj, b.obj))
+        hook = getattr(self.uni, "binop_hook", None)
+        if hook is not None:
+            r = hook(self, op, a, b, st, fr)
+            if r is not None:
+                return r
         raise Unsupported(f"binop {type(op).__name__} on {a}, {b}")
 
     @staticmethod
@@ -854,6 +865,10 @@ class Interp(BuiltinsMixin, StmtMixin, DictMixin):
                     attr, obj.e, uni.field_tag(attr)))
             if attr == "__class__":
                 return VFunc("classof", recv=obj)
+            hk = uni.method_hooks.get(f"{obj.cls}.{attr}")
+            if hk is not None:
+                return VFunc("hook", fn=lambda it, a, k, st2, fr2, _o=obj:
+                             hk(it, _o, a, k, st2, fr2))
             raise Unsupported(f"attribute .{attr} of {obj}")
         if isinstance(obj, VClass):
             if obj.name in uni.enums and attr in uni.enums[obj.name].members:
@@ -1189,6 +1204,11 @@ class Interp(BuiltinsMixin, StmtMixin, DictMixin):
                                   getattr(fn, "rettype", fn.ret))
             if k == "hook":
                 return fn.fn(self, args, kwargs, st, fr)
+        if isinstance(fn, VRef) and fn.cls:
+            for c in self.uni.repo.mro(fn.cls):
+                hk = self.uni.method_hooks.get(f"{c}.__call__")
+                if hk is not None:
+                    return hk(self, fn, args, kwargs, st, fr)
         if isinstance(fn, VClass):
             if self.is_exception_class(fn.name):
                 return VExc(fn.name)
